@@ -951,6 +951,12 @@ where
                 continue;
             }
 
+            // Refresh pool information, something might have changed: a reload must be in
+            // effect for the commands, plugins and routing decisions below as well, not
+            // only for the checkout that follows them.
+            pool = self.get_pool().await?;
+            query_router.update_pool_settings(&pool.settings);
+
             // Handle all custom protocol commands, if any.
             if self
                 .handle_custom_protocol(&mut query_router, &message, &pool)
